@@ -239,7 +239,9 @@ impl SnfCalc {
 
     pub fn eliminate_row(&mut self, i: usize, j: usize) -> (modified: bool)
         ensures same_flags(*old(self), *final(self)), forall|a0: int| pq_ok(*old(self), a0) ==> pq_ok(*final(self), a0),
-    //@body impl/SnfCalc/eliminate_row ring=1 index2=1 for_range=1 machine=j,j1
+    //@body impl/SnfCalc/eliminate_row ring=1 index2=1 for_range=1 machine=j,j1 loops=1
+    //@+ loop 0 header
+    //@| for j1 in 0..self.target.ncols()
     //@+ sig
     //@| fn eliminate_row(&mut self, i: usize, j: usize) -> bool
     //@+ loop 0
@@ -250,7 +252,9 @@ impl SnfCalc {
 
     pub fn eliminate_col(&mut self, i: usize, j: usize) -> (modified: bool)
         ensures same_flags(*old(self), *final(self)), forall|a0: int| pq_ok(*old(self), a0) ==> pq_ok(*final(self), a0),
-    //@body impl/SnfCalc/eliminate_col ring=1 index2=1 for_range=1 machine=i,i1
+    //@body impl/SnfCalc/eliminate_col ring=1 index2=1 for_range=1 machine=i,i1 loops=1
+    //@+ loop 0 header
+    //@| for i1 in 0..self.target.nrows()
     //@+ sig
     //@| fn eliminate_col(&mut self, i: usize, j: usize) -> bool
     //@+ loop 0
